@@ -141,6 +141,10 @@ class Stream:
         completed).
         """
 
+        # Tor already told us this stream is gone; nothing to wait for
+        if self.state in ('CLOSED', 'FAILED'):
+            return defer.succeed(self)
+
         # someone already called close() but we're not closed yet
         if self._closing_deferred:
             d = defer.Deferred()
